@@ -782,7 +782,141 @@ func (c *hmapClassifier) condEvent(cond ast.Expr, val bool) *paths.Event {
 			}
 		}
 	}
+	// e == nil after `for e != nil && e.key != key { e = e.next }`: the loop stops at the entry that
+	// holds the key or at the terminating nil, so behind the loop the nil test is the membership test
+	if be, ok := ast.Unparen(cond).(*ast.BinaryExpr); ok && (be.Op == token.EQL || be.Op == token.NEQ) && s != "found" {
+		for _, pr := range [][2]ast.Expr{{be.X, be.Y}, {be.Y, be.X}} {
+			if nid, ok := ast.Unparen(pr[1]).(*ast.Ident); !ok || nid.Name != "nil" {
+				continue
+			}
+			if id, ok := ast.Unparen(pr[0]).(*ast.Ident); ok && c.behindSearchLoop(id, cond.Pos()) {
+				rawEq := origVal
+				if be.Op == token.NEQ {
+					rawEq = !origVal
+				}
+				s, val = "found", !rawEq
+				return &paths.Event{Kind: kind, Arg: fmt.Sprintf("%s=%v", s, val), Pos: cond.Pos(), Node: searchLoopVerdict}
+			}
+		}
+	}
 	return &paths.Event{Kind: kind, Arg: fmt.Sprintf("%s=%v", s, val), Pos: cond.Pos()}
+}
+
+// searchLoopVerdict marks the membership test behind a search loop; searchLoopFeasible drops the
+// paths on which it contradicts the way the loop was left (left on a match: found; left on nil: not).
+var searchLoopVerdict ast.Node = &ast.BadExpr{}
+
+func searchLoopFeasible(pa paths.Path) bool {
+	for i, e := range pa {
+		if e.Node != searchLoopVerdict {
+			continue
+		}
+		for k := i - 1; k >= 0; k-- {
+			if pa[k].Kind == "ENDLOOP" {
+				continue
+			}
+			if pa[k].Kind == "COND" {
+				if pa[k].Arg == "found=true" && e.Arg == "found=false" {
+					return false
+				}
+				if strings.HasSuffix(pa[k].Arg, "==nil=true") && e.Arg == "found=true" {
+					return false
+				}
+			}
+			break
+		}
+	}
+	return true
+}
+
+// behindSearchLoop: id is a local that a loop `for id != nil && id.key != <key parameter> { id = id.next }`
+// (conjuncts in either order, nothing else in the body) has walked before position at, and nothing
+// between the loop and at assigns it.
+func (c *hmapClassifier) behindSearchLoop(id *ast.Ident, at token.Pos) bool {
+	obj := c.info.ObjectOf(id)
+	if obj == nil {
+		return false
+	}
+	found := false
+	for _, body := range append([]*ast.BlockStmt{c.fi.Decl.Body}, c.bodies...) {
+		if at < body.Pos() || at > body.End() {
+			continue
+		}
+		var loop *ast.ForStmt
+		ast.Inspect(body, func(n ast.Node) bool {
+			fs, ok := n.(*ast.ForStmt)
+			if !ok || fs.Init != nil || fs.Post != nil || fs.Cond == nil || fs.End() > at || len(fs.Body.List) != 1 {
+				return true
+			}
+			cj := flattenLand(fs.Cond)
+			if len(cj) != 2 {
+				return true
+			}
+			nilTest, keyTest := false, false
+			for _, x := range cj {
+				b, ok := ast.Unparen(x).(*ast.BinaryExpr)
+				if !ok || b.Op != token.NEQ {
+					continue
+				}
+				if xi, ok := ast.Unparen(b.X).(*ast.Ident); ok && c.info.ObjectOf(xi) == obj {
+					if ni, ok := ast.Unparen(b.Y).(*ast.Ident); ok && ni.Name == "nil" {
+						nilTest = true
+					}
+				}
+				if sel, ok := ast.Unparen(b.X).(*ast.SelectorExpr); ok && (sel.Sel.Name == "key" || sel.Sel.Name == "Key") {
+					if xi, ok := ast.Unparen(sel.X).(*ast.Ident); ok && c.info.ObjectOf(xi) == obj && c.isParam(b.Y) {
+						keyTest = true
+					}
+				}
+			}
+			if !nilTest || !keyTest {
+				return true
+			}
+			as, ok := fs.Body.List[0].(*ast.AssignStmt)
+			if !ok || as.Tok != token.ASSIGN || len(as.Lhs) != 1 || len(as.Rhs) != 1 {
+				return true
+			}
+			li, ok := as.Lhs[0].(*ast.Ident)
+			if !ok || c.info.ObjectOf(li) != obj {
+				return true
+			}
+			rs, ok := ast.Unparen(as.Rhs[0]).(*ast.SelectorExpr)
+			if !ok {
+				return true
+			}
+			if ri, ok := ast.Unparen(rs.X).(*ast.Ident); !ok || c.info.ObjectOf(ri) != obj {
+				return true
+			}
+			loop = fs
+			return true
+		})
+		if loop == nil {
+			continue
+		}
+		// no assignment to the local between the loop and the test
+		clean := true
+		ast.Inspect(body, func(n ast.Node) bool {
+			if as, ok := n.(*ast.AssignStmt); ok && as.Pos() > loop.End() && as.End() < at {
+				for _, l := range as.Lhs {
+					if li, ok := l.(*ast.Ident); ok && c.info.ObjectOf(li) == obj {
+						clean = false
+					}
+				}
+			}
+			return true
+		})
+		if clean {
+			found = true
+		}
+	}
+	return found
+}
+
+func flattenLand(e ast.Expr) []ast.Expr {
+	if be, ok := ast.Unparen(e).(*ast.BinaryExpr); ok && be.Op == token.LAND {
+		return append(flattenLand(be.X), flattenLand(be.Y)...)
+	}
+	return []ast.Expr{e}
 }
 
 // derefOfFoundSlot: e is `*slot` (directly, or through one local) where slot was returned by a slot
@@ -1465,7 +1599,7 @@ func (h *hmapType) enumerateWith(fi *core.FuncInfo, cl *hmapClassifier, mode str
 	all, over := paths.Enumerate(fi.Decl.Body, cfg)
 	var out []paths.Path
 	for _, pa := range all {
-		if pa.FlagConsistent() {
+		if pa.FlagConsistent() && searchLoopFeasible(pa) {
 			out = append(out, pa)
 		}
 	}
